@@ -122,14 +122,14 @@ impl Masker for TreeSitterMasker {
 fn byte_spans_to_char_spans(byte_spans: &mut Vec<Span>, source: &str) {
     byte_spans.sort_by_key(|s| s.start);
 
-    let cloned = byte_spans.clone();
-
-    let mut i: usize = 0;
+    // Compare with the last span that was kept, not with the preceding element of the input: two
+    // nodes nested in the same outer node do not overlap each other, but both overlap it.
+    let mut kept_until: Option<usize> = None;
     byte_spans.retain(|cur| {
-        i += 1;
-        if let Some(prev) = cloned.get(i.wrapping_sub(2)) {
-            !cur.overlaps_with(*prev)
+        if kept_until.is_some_and(|end| cur.start < end) {
+            false
         } else {
+            kept_until = Some(cur.end.max(kept_until.unwrap_or(0)));
             true
         }
     });
